@@ -210,6 +210,29 @@ def h_outputdag() -> dict[str, Any]:
             "t_out": e, "e_out": g}
 
 
+def h_dict_from_set() -> dict[str, Any]:
+    """The output mapping is filled by iterating a frozenset of names, i.e. in
+    an insertion order that differs between interpreter processes (and is not
+    sorted); every output reaches its own unnamed data wrapper.  What is
+    generated must depend on the CONTENT of the mapping only."""
+    import pytato as pt
+    x = pt.make_placeholder("x", (4,), F8)
+    exprs = {nm: x * (k + 2) + pt.make_data_wrapper(_data("fs" + nm, (4,)))
+             for k, nm in enumerate(["lift", "mass", "drag", "flux", "work", "heat"])}
+    return {nm: exprs[nm] for nm in frozenset(exprs)}
+
+
+def h_dict_unsorted() -> dict[str, Any]:
+    """the same content inserted in a fixed, non-sorted order"""
+    import pytato as pt
+    x = pt.make_placeholder("x", (4,), F8)
+    order = ["work", "drag", "mass", "heat", "lift", "flux"]
+    names = ["lift", "mass", "drag", "flux", "work", "heat"]
+    exprs = {nm: x * (k + 2) + pt.make_data_wrapper(_data("fs" + nm, (4,)))
+             for k, nm in enumerate(names)}
+    return {nm: exprs[nm] for nm in order}
+
+
 _KNL: dict[str, Any] = {}
 
 
@@ -247,6 +270,7 @@ HAND: dict[str, Callable[[], dict[str, Any]]] = {
     "manyargs": h_manyargs, "chain": h_chain, "stored": h_stored,
     "sizeparam": h_sizeparam, "tagged": h_tagged, "nesteddict": h_nesteddict,
     "loopycall": h_loopycall, "outputdag": h_outputdag,
+    "dict_from_set": h_dict_from_set, "dict_unsorted": h_dict_unsorted,
 }
 
 
